@@ -39,3 +39,22 @@ def f2_pasthash_length(seed):
     rec.fix(); d.append("fix")
     a.destroy()
     return rec, d
+
+
+def f5_autosave_not_drained(seed):
+    """sync.c:1302-1340 saves the content (stripes declared BLK) while their parity writes are still queued"""
+    a = arr.Array(arr.Conf(nd=2, np=2, copies=2), seed=seed)
+    a.write_file(0, "K", [1], mtime=11); a.write_file(1, "L", [2], mtime=12)
+    rec = recorder.Recorder(a)
+    d = ["init K / L"]
+    rec.sync(); d.append("sync")
+    a.write_file(0, "N", [3, 4, 5, 6, 7], mtime=13); rec.env("add N (5 new stripes)"); d.append("add N")
+    # autosave forced after stripe 2, parity writes delayed, process killed right after the autosave's last rename
+    rec.sync_killed(["pwrite,/p,0,delay,300", "rename,c1/content,2,killa"], "--test-io-cache", "3",
+                    "--test-force-autosave-at", "2", autosave_at=2)
+    d.append("sync --test-io-cache 3 --test-force-autosave-at 2, parity writes delayed, killed after the autosave")
+    a.clock += 10
+    r, out = rec.sync(); d.append("resume sync -> %s" % out["exit"])
+    r, out = rec.check(); d.append("check -> %s" % out["exit"])
+    a.destroy()
+    return rec, d
